@@ -141,12 +141,17 @@ theorem AllelePair_k_bv {p : Nat} (hp : p < 2 ^ 31) : AllelePair_k (bv p) = bv (
 
 theorem smallAllelePair_eq : Genotype_smallAllelePair = some (smallAllelePair.map bv) := by decide
 
-theorem triRootF_bv {i : Nat} (hi : i < 2 ^ 31) : triRootF (bv i) = bv (triRoot i) := by
-  unfold triRootF triRoot
-  have : (bv i).slt (0#32) = false := by
-    have := lt_bv (a := i) (b := 0) hi (by omega)
-    unfold Jvm.lt at this; rw [show (0#32) = bv 0 from rfl, this]; simp
-  rw [this, toNat_bv (by omega)]; rfl
+/-- the radicand of the current text, `8 * i.toDouble + 1`: the `Int` argument is widened *before* the multiplication,
+so nothing wraps (no-overflow fact of the current source) and the radicand is the exact `8 i + 1` -/
+theorem radicand_exact {i : Nat} (hi : i < 2 ^ 31) : (8 : Int) * (bv i).toInt + (1 : Int) = ((8 * i + 1 : Nat) : Int) := by
+  rw [toInt_bv hi]; push_cast; ring
+
+theorem triRootR_bv {i : Nat} (hi : i < 2 ^ 31) :
+    triRootR ((8 : Int) * (bv i).toInt + (1 : Int)) = bv (triRoot i) := by
+  rw [radicand_exact hi]
+  unfold triRootR triRoot
+  have : ¬ (((8 * i + 1 : Nat) : Int) < 0) := by omega
+  rw [if_neg this, Int.toNat_natCast]
 
 /-- `Genotype.allelePair(i)` on the index of the pair `j ≤ k` -/
 theorem Genotype_allelePair_bv {j k : Nat} (hj : j ≤ k) (h : gtIndex j k < 2 ^ 29) :
@@ -172,7 +177,7 @@ theorem Genotype_allelePair_bv {j k : Nat} (hj : j ≤ k) (h : gtIndex j k < 2 ^
     dsimp only
     have hT : k * (k + 1) / 2 ≤ gtIndex j k := by unfold gtIndex; omega
     have hj' : gtIndex j k - k * (k + 1) / 2 = j := by unfold gtIndex; omega
-    rw [triRootF_bv (by omega), triRoot_gtIndex hj, show (1#32) = bv 1 from rfl, show (2#32) = bv 2 from rfl,
+    rw [triRootR_bv (by omega), triRoot_gtIndex hj, show (1#32) = bv 1 from rfl, show (2#32) = bv 2 from rfl,
       add_bv, mul_bv, divLit_bv (by omega) (by omega), le_bv (by omega) (by omega),
       sub_bv (by omega) hT, hj', diploidGtIndex_bv hj hk]
     simp only [hT, decide_true, Bool.not_true, Bool.false_eq_true, if_false, Option.bind_some]
